@@ -52,13 +52,27 @@ class FlattenedInstance:
         return ":".join([p.name or "_" for p in self.path])
 
 
+def _claim(names: Dict[str, tuple], flat_name: str, qualname: tuple) -> None:
+    """Claim `flat_name` in the flattened module for the hierarchical object `qualname`:
+    the tuple of instance names leading to it, plus its own name.
+    Path names are joined with ":", which may itself appear in names. Joining two different
+    hierarchical objects to the same flat name would merge them, so such designs are rejected."""
+    if names.setdefault(flat_name, qualname) != qualname:
+        msg = f"Cannot flatten: name {flat_name} denotes both {names[flat_name]} and {qualname}"
+        raise RuntimeError(msg)
+
+
 def walk(
     m: h.Module,
     parents: List[h.Instance],
     conns: Optional[Dict[str, h.Signal]] = None,
+    names: Optional[Dict[str, tuple]] = None,
 ) -> Generator[FlattenedInstance, None, None]:
     if conns is None:
         conns = {**m.signals, **m.ports}
+    if names is None:
+        # The flattened-module names claimed thus far: initially those of the top-level signals and ports
+        names = {name: (name,) for name in conns}
     for inst in m.instances.values():
         new_conns = {}
         new_parents = parents + [inst]
@@ -80,19 +94,23 @@ def walk(
             if key in conns:
                 target_sig = conns[key]
             elif key in m.signals:
+                _claim(names, new_sig_name, tuple(p.name for p in parents) + (key,))
                 target_sig = replace(
                     _copy_to_internal(m.signals[key]), name=new_sig_name
                 )
             elif key in m.ports:
+                _claim(names, new_sig_name, tuple(p.name for p in parents) + (key,))
                 target_sig = replace(_copy_to_internal(m.ports[key]), name=new_sig_name)
             else:
                 raise ValueError(f"signal {key} not found")
             new_conns[src_port_name] = target_sig
 
         if isinstance(inst.of, (h.PrimitiveCall, h.ExternalModuleCall)):
-            yield FlattenedInstance(inst, new_parents, new_conns)
+            node = FlattenedInstance(inst, new_parents, new_conns)
+            _claim(names, node.make_name(), tuple(p.name for p in new_parents))
+            yield node
         else:
-            yield from walk(inst.of, new_parents, new_conns)
+            yield from walk(inst.of, new_parents, new_conns, names)
 
 
 def _find_signal_or_port(m: h.Module, name: str) -> h.Signal:
